@@ -14,13 +14,14 @@ func init() {
 		Title:    "Backend handshake keeps the player's host first and forwarding data well-formed",
 		Patterns: []string{"./pkg/edition/java/proxy", "./pkg/edition/java/forge/...", "./pkg/edition/java/lite"},
 		Run:      runC19,
-		Rule: "P5 prefix provenance: on every return of handshakeAddr that is not the forwarding return, the returned string's leftmost concatenation leaf is host-carrying — the vHost " +
-			"parameter, the result of an addresser hook that was handed a host-carrying default, or backendHandshakeBaseHost(host-carrying) — never a constant or a Forge token; everything " +
-			"appended to it begins with NUL (forge.HandshakeHostnameToken, every return of modernforge.ModernToken), so the host stays the first NUL-separated part; " +
-			"backendHandshakeBaseHost returns its argument or the part before the first NUL; the forwarding return is reached only with usedForwarding set, is not concatenated with " +
-			"anything, and the backend addresser hook and the Forge tokens are applied only on the not-forwarding edge; P7 on strings.Builder: createLegacyForwardingAddress and " +
-			"createBungeeGuardForwardingAddress write exactly backend-address NUL player-ip NUL undashed-uuid NUL json(properties) in that order and return the builder, the BungeeGuard " +
-			"variant marshals a property list to which {bungeeguard-token, secret} was appended.",
+		Rule: "P5 prefix provenance: on every success return of handshakeAddr the returned string's leftmost concatenation leaf is host-carrying — the vHost parameter, the result of an " +
+			"addresser hook that was handed a host-carrying default, backendHandshakeBaseHost(host-carrying), or a forwarding address — never a constant or a Forge token (followed through " +
+			"phis, tuple results and the returns of module helpers with parameters bound; a helper's `…, false` return is excluded behind its ok test); everything appended to the host " +
+			"begins with NUL (forge.HandshakeHostnameToken, every return of modernforge.ModernToken); backendHandshakeBaseHost returns its argument or the part before the first NUL " +
+			"(Split/SplitN/Cut are one operation); forwarding-exact: a forwarding address can reach a success return, and no concatenation or backend-addresser call takes an operand " +
+			"that can be a forwarding address unless it lies behind the false edge of a flag assigned together with it (phi-correlated); string shape: every return of " +
+			"createLegacyForwardingAddress / createBungeeGuardForwardingAddress evaluates — through strings.Builder writes, + chains, strings.Join of a literal, helper returns — to exactly " +
+			"backend-address NUL player-ip NUL undashed-uuid NUL json(properties), the BungeeGuard variant marshalling a property list to which {bungeeguard-token, secret} was appended.",
 		Explanation: "Decides: host-first for all client types, Forge markers and address hooks; shape and order of the BungeeCord forwarding string; presence of the BungeeGuard token property. " +
 			"Does not decide: that a real BungeeCord backend parses the JSON (encoding/json is trusted), nor what custom hooks return.",
 		Fixtures: []string{"provenance"},
@@ -52,15 +53,212 @@ func runC19(c *Ctx) {
 	}
 	c.Analysed(ha, bh)
 	vHostParam := ha.Params[1]
+	// handshakeAddr and the unexported helpers it was split into (the forwarding builders are judged
+	// on their own below)
+	var parts []*ssa.Function
+	for _, f := range deepFuncs(ha, 1) {
+		if n := f.Name(); n == "createLegacyForwardingAddress" || n == "createBungeeGuardForwardingAddress" || f == bh {
+			continue
+		}
+		parts = append(parts, f)
+	}
 
 	isForwardingCall := func(v ssa.Value) bool {
 		cl, ok := v.(*ssa.Call)
 		return ok && (strings.HasSuffix(calleeName(&cl.Call), ").createLegacyForwardingAddress") || strings.HasSuffix(calleeName(&cl.Call), ").createBungeeGuardForwardingAddress"))
 	}
-	// hostCarrying: every leftmost leaf of v is host-carrying. allowFwd: forwarding addresses may be a leaf
-	// (only below a hook that is itself guarded, see forwarding-exact).
-	var hostCarrying func(v ssa.Value, seen map[ssa.Value]bool) (bool, string)
-	hostCarrying = func(v ssa.Value, seen map[ssa.Value]bool) (bool, string) {
+	// fwPossible: may v be (or contain) a legacy/BungeeGuard forwarding address? Followed through
+	// phis, concatenations, tuple results and the returns of module helpers (parameters bound).
+	var fwPossible func(v ssa.Value, depth int) bool
+	fwHelper := func(cl *ssa.Call, idx int, depth int) bool {
+		g := moduleHelperWithBody(&cl.Call)
+		if g == nil || depth <= 0 {
+			return false
+		}
+		res := make([]ssa.Value, len(cl.Call.Args))
+		for i, a := range cl.Call.Args {
+			res[i] = strip(a)
+		}
+		any := false
+		withBinding(g, res, func() {
+			for _, r := range successReturns(g) {
+				if idx < len(r.Results) && fwPossible(retVal(r, idx), depth-1) {
+					any = true
+				}
+			}
+		})
+		return any
+	}
+	fwPossible = func(v ssa.Value, depth int) bool {
+		if depth <= 0 {
+			return false
+		}
+		v = strip(v)
+		switch x := v.(type) {
+		case *ssa.Call:
+			if isForwardingCall(x) {
+				return true
+			}
+			return fwHelper(x, 0, depth)
+		case *ssa.Extract:
+			if cl, ok := x.Tuple.(*ssa.Call); ok {
+				return fwHelper(cl, x.Index, depth)
+			}
+		case *ssa.Phi:
+			for _, e := range x.Edges {
+				if fwPossible(e, depth-1) {
+					return true
+				}
+			}
+		case *ssa.BinOp:
+			if x.Op == token.ADD {
+				return fwPossible(x.X, depth-1) || fwPossible(x.Y, depth-1)
+			}
+		}
+		return false
+	}
+	// covers(flag, str): whenever str is a forwarding address, the boolean flag is true — the two are
+	// assigned together (phis of one block, edge by edge), or the flag is constantly true.
+	var covers func(flag, str ssa.Value, depth int) bool
+	covers = func(flag, str ssa.Value, depth int) bool {
+		if depth <= 0 {
+			return false
+		}
+		if !fwPossible(str, 8) {
+			return true
+		}
+		if b, isK := constBool(flag); isK {
+			return b
+		}
+		// derived values: covered when everything they derive from is
+		viaReturns := func(cl *ssa.Call, idx int) bool {
+			g := moduleHelperWithBody(&cl.Call)
+			if g == nil {
+				return false
+			}
+			res := make([]ssa.Value, len(cl.Call.Args))
+			for i, a := range cl.Call.Args {
+				res[i] = strip(a)
+			}
+			all := true
+			withBinding(g, res, func() {
+				for _, r := range successReturns(g) {
+					if idx < len(r.Results) && !covers(flag, retVal(r, idx), depth-1) {
+						all = false
+					}
+				}
+			})
+			return all
+		}
+		switch x := strip(str).(type) {
+		case *ssa.Call:
+			if isForwardingCall(x) {
+				return false
+			}
+			return viaReturns(x, 0)
+		case *ssa.Extract:
+			if cl, ok := x.Tuple.(*ssa.Call); ok {
+				return viaReturns(cl, x.Index)
+			}
+			return false
+		case *ssa.BinOp:
+			return covers(flag, x.X, depth-1) && covers(flag, x.Y, depth-1)
+		}
+		sp, ok1 := strip(str).(*ssa.Phi)
+		fp, ok2 := stripNoSubst(flag).(*ssa.Phi)
+		if ok1 && ok2 && sp.Block() == fp.Block() && len(sp.Edges) == len(fp.Edges) {
+			for i := range sp.Edges {
+				if !covers(fp.Edges[i], sp.Edges[i], depth-1) {
+					return false
+				}
+			}
+			return true
+		}
+		// the string was merged again after the flag was settled: the flag has one value on all of
+		// the merge's incoming paths, so it must cover each incoming value
+		if fi, isI := stripNoSubst(flag).(ssa.Instruction); ok1 && isI && fi.Block() != sp.Block() && fi.Block().Dominates(sp.Block()) {
+			for _, e := range sp.Edges {
+				if !covers(flag, e, depth-1) {
+					return false
+				}
+			}
+			return true
+		}
+		return false
+	}
+	// notForwardingAt: site lies behind an edge on which a flag that covers operand is false.
+	notForwardingAt := func(site ssa.Instruction, operand ssa.Value) bool {
+		g, n := MustCross(site, func(e Edge, cond ssa.Value, truth bool) bool {
+			if truth {
+				return false
+			}
+			if _, isBool := constBool(cond); isBool {
+				return false
+			}
+			if _, isPhi := stripNoSubst(cond).(*ssa.Phi); !isPhi {
+				return false
+			}
+			return covers(cond, operand, 6)
+		})
+		return g && n > 0
+	}
+
+	// hostCarrying: every leftmost leaf of v is host-carrying. Forwarding addresses may be a leaf: they
+	// are judged by forwarding-exact.
+	var hostCarrying func(v ssa.Value, site ssa.Instruction, seen map[ssa.Value]bool) (bool, string)
+	viaHelper := func(cl *ssa.Call, idx int, site ssa.Instruction, seen map[ssa.Value]bool) (bool, string, bool) {
+		g := moduleHelperWithBody(&cl.Call)
+		if g == nil || len(seen) > 40 {
+			return false, "", false
+		}
+		c.Analysed(g)
+		// `v, ok := helper()`: at a site behind `ok`, the helper's `return …, false` did not happen
+		type guard struct {
+			idx   int
+			truth bool
+		}
+		var guards []guard
+		if cl.Referrers() != nil && site != nil && site.Parent() == cl.Parent() {
+			for _, ref := range *cl.Referrers() {
+				ex, isEx := ref.(*ssa.Extract)
+				if !isEx || ex.Index == idx || ex.Type().String() != "bool" {
+					continue
+				}
+				for _, t := range []bool{true, false} {
+					t := t
+					if gd, n := MustCross(site, func(e Edge, cond ssa.Value, truth bool) bool {
+						return stripNoSubst(cond) == ssa.Value(ex) && truth == t
+					}); gd && n > 0 {
+						guards = append(guards, guard{ex.Index, t})
+					}
+				}
+			}
+		}
+		res := make([]ssa.Value, len(cl.Call.Args))
+		for i, a := range cl.Call.Args {
+			res[i] = strip(a)
+		}
+		ok, why, n := true, "", 0
+		withBinding(g, res, func() {
+		next:
+			for _, r := range successReturns(g) {
+				if idx >= len(r.Results) {
+					continue
+				}
+				for _, gd := range guards {
+					if b, isK := constBool(r.Results[gd.idx]); isK && b != gd.truth {
+						continue next
+					}
+				}
+				n++
+				if o, w := hostCarrying(retVal(r, idx), r, seen); !o {
+					ok, why = false, w+" (returned by "+g.Name()+")"
+				}
+			}
+		})
+		return ok && n > 0, why, true
+	}
+	hostCarrying = func(v ssa.Value, site ssa.Instruction, seen map[ssa.Value]bool) (bool, string) {
 		v = strip(v)
 		if seen[v] {
 			return true, ""
@@ -74,27 +272,35 @@ func runC19(c *Ctx) {
 			return false, "parameter " + x.Name()
 		case *ssa.BinOp:
 			if x.Op == token.ADD {
-				return hostCarrying(x.X, seen)
+				return hostCarrying(x.X, site, seen)
 			}
 		case *ssa.Phi:
 			for _, e := range x.Edges {
-				if ok, why := hostCarrying(e, seen); !ok {
+				if ok, why := hostCarrying(e, site, seen); !ok {
 					return false, why
 				}
 			}
 			return true, ""
 		case *ssa.Extract:
-			return hostCarrying(x.Tuple, seen)
+			if cl, ok := x.Tuple.(*ssa.Call); ok {
+				if o, w, handled := viaHelper(cl, x.Index, site, seen); handled {
+					return o, w
+				}
+			}
+			return hostCarrying(x.Tuple, site, seen)
 		case *ssa.Call:
 			n := calleeName(&x.Call)
 			switch {
 			case strings.HasSuffix(n, "proxy.backendHandshakeBaseHost"):
-				return hostCarrying(x.Call.Args[0], seen)
+				return hostCarrying(x.Call.Args[0], site, seen)
 			case x.Call.IsInvoke() && (x.Call.Method.Name() == "HandshakeAddr" || x.Call.Method.Name() == "BackendHandshakeAddr"):
 				// a hook decides the address; it must at least be offered a host-carrying default
-				return hostCarrying(x.Call.Args[0], seen)
+				return hostCarrying(x.Call.Args[0], site, seen)
 			case isForwardingCall(x):
 				return true, "" // forwarding addresses are judged by forwarding-exact
+			}
+			if o, w, handled := viaHelper(x, 0, site, seen); handled {
+				return o, w
 			}
 			return false, "result of " + n
 		case *ssa.Const:
@@ -102,84 +308,71 @@ func runC19(c *Ctx) {
 		}
 		return false, v.String()
 	}
-	usedFwdEdge := func(want bool) EdgePred {
-		return func(e Edge, cond ssa.Value, truth bool) bool {
-			// cond is the usedForwarding flag: a phi of boolean constants
-			ph, ok := cond.(*ssa.Phi)
-			if !ok {
-				return false
-			}
-			for _, ed := range ph.Edges {
-				if _, isC := constBool(ed); !isC {
-					if _, isPhi := ed.(*ssa.Phi); !isPhi {
-						return false
-					}
-				}
-			}
-			return truth == want
-		}
-	}
-	nRet := 0
+
+	nRet, nFwRet := 0, 0
 	for _, r := range returnsOf(ha) {
 		if r.Block() == ha.Recover || len(r.Results) != 2 || !isNilConst(retVal(r, 1)) {
 			continue
 		}
 		nRet++
 		v := retVal(r, 0)
-		fwd, nf := MustCross(r, usedFwdEdge(true))
-		if fwd && nf > 0 {
-			_, isCat := strip(v).(*ssa.BinOp)
-			c.Check("forwarding-exact", "return-on-usedForwarding@handshakeAddr", r, !isCat,
-				"the forwarding address is extended after it was built (a BungeeCord backend splits it into exactly four NUL-separated parts)")
-			continue
+		if fwPossible(v, 8) {
+			nFwRet++
 		}
-		notFwd, nn := MustCross(r, usedFwdEdge(false))
-		c.Check("forwarding-exact", "plain-return-not-forwarding@handshakeAddr", r, notFwd && nn > 0,
-			"a return that may append Forge tokens or run the backend addresser is reachable with a legacy/BungeeGuard forwarding address")
-		ok, why := hostCarrying(v, map[ssa.Value]bool{})
+		ok, why := hostCarrying(v, r, map[ssa.Value]bool{})
 		c.Check("host-first", "return@handshakeAddr", r, ok,
 			"the server address sent to the backend does not start with the player's virtual host (leftmost part is "+why+"): forced hosts and downstream proxies route on the first NUL-separated part")
 	}
-	if nRet < 2 {
-		c.Undecided("host-first", "handshakeAddr", fmt.Sprintf("expected a forwarding and a plain success return, found %d", nRet))
+	if nRet < 1 {
+		c.Undecided("host-first", "handshakeAddr", "no success return found")
 	}
-	// everything appended begins with NUL
-	eachInstr(ha, func(in ssa.Instruction) {
-		bo, ok := in.(*ssa.BinOp)
-		if !ok || bo.Op != token.ADD || bo.Type().String() != "string" {
-			return
-		}
-		okN, what := nulPrefixed(c, bo.Y)
-		c.Check("token-nul-prefixed", "append "+what+"@handshakeAddr", in, okN, "what is appended to the host must start with NUL so that the host stays the first NUL-separated part")
-	})
-	// hooks and tokens only when not forwarding
-	for _, ci := range callsIn(ha, func(nm string, cc *ssa.CallCommon) bool { return cc.IsInvoke() && cc.Method.Name() == "BackendHandshakeAddr" }) {
-		g, ns := MustCross(ci, usedFwdEdge(false))
-		c.Check("forwarding-exact", "BackendHandshakeAddr-not-forwarding@handshakeAddr", ci, g && ns > 0, "the backend addresser must not rewrite a forwarding address")
-		// it is offered the base host
-		a := ci.Common().Args[0]
-		cl := callNamed(a, "proxy.backendHandshakeBaseHost")
-		c.Check("host-first", "BackendHandshakeAddr(baseHost(vHost))@handshakeAddr", ci, cl != nil, "the backend addresser must be offered the host part of the virtual host")
+	c.CheckAt("forwarding-exact", "forwarding-address-returned@handshakeAddr", c.P.Pos(ha.Pos()), nFwRet > 0,
+		"no success return of handshakeAddr can carry the legacy/BungeeGuard forwarding address: with forwarding configured the backend would not receive the player's IP, UUID and properties")
+
+	// the forwarding address is final: nothing is appended to it and no backend hook rewrites it
+	nMod := 0
+	for _, f := range parts {
+		f := f
+		eachInstr(f, func(in ssa.Instruction) {
+			switch x := in.(type) {
+			case *ssa.BinOp:
+				if x.Op != token.ADD || x.Type().String() != "string" {
+					return
+				}
+				// what is appended to the host begins with NUL
+				if hc, _ := hostCarrying(x.X, in, map[ssa.Value]bool{}); hc {
+					okN, what := nulPrefixed(c, x.Y)
+					c.Check("token-nul-prefixed", "append "+what+"@"+f.Name(), in, okN, "what is appended to the host must start with NUL so that the host stays the first NUL-separated part")
+				}
+				for _, op := range []ssa.Value{x.X, x.Y} {
+					if !fwPossible(op, 8) {
+						continue
+					}
+					nMod++
+					c.Check("forwarding-exact", "append-not-forwarding@"+f.Name(), in, notForwardingAt(in, op),
+						"something is appended to a value that can be the legacy/BungeeGuard forwarding address (a BungeeCord backend splits it into exactly four NUL-separated parts): the concatenation must lie on the not-forwarding side")
+				}
+			case *ssa.Call:
+				if !(x.Call.IsInvoke() && x.Call.Method.Name() == "BackendHandshakeAddr") {
+					return
+				}
+				nMod++
+				a := x.Call.Args[0]
+				c.Check("forwarding-exact", "BackendHandshakeAddr-not-forwarding@"+f.Name(), in, !fwPossible(a, 8) || notForwardingAt(in, a), "the backend addresser must not rewrite a forwarding address")
+				// it is offered the base host
+				cl := callNamed(a, "proxy.backendHandshakeBaseHost")
+				c.Check("host-first", "BackendHandshakeAddr(baseHost(vHost))@"+f.Name(), in, cl != nil, "the backend addresser must be offered the host part of the virtual host")
+			}
+		})
+	}
+	if nMod == 0 {
+		c.Undecided("forwarding-exact", "handshakeAddr", "no backend addresser call or concatenation found")
 	}
 
-	// ---- backendHandshakeBaseHost
+	// ---- backendHandshakeBaseHost: the argument itself or its part before the first NUL
 	for _, r := range returnsOf(bh) {
-		v := strip(retVal(r, 0))
-		ok := false
-		if v == ssa.Value(bh.Params[0]) {
-			ok = true
-		} else if ld, isLd := v.(*ssa.UnOp); isLd {
-			if ia, isIA := ld.X.(*ssa.IndexAddr); isIA {
-				k, isK := constInt(ia.Index)
-				if cl := callValue(ia.X); cl != nil && isK && k == 0 {
-					n := calleeName(&cl.Call)
-					sep, _ := constString(cl.Call.Args[1])
-					if (n == "strings.SplitN" || n == "strings.Split") && sep == "\x00" && strip(cl.Call.Args[0]) == ssa.Value(bh.Params[0]) {
-						ok = true
-					}
-				}
-			}
-		}
+		src, steps := strChain(retVal(r, 0), 2)
+		ok := strip(src) == ssa.Value(bh.Params[0]) && (len(steps) == 0 || (len(steps) == 1 && steps[0] == strStep{"cut", "\x00"}))
 		c.Check("base-host", "return@backendHandshakeBaseHost", r, ok, "the base host must be the argument itself or its part before the first NUL")
 	}
 
@@ -193,137 +386,111 @@ func runC19(c *Ctx) {
 			continue
 		}
 		c.Analysed(fn)
-		var writes []ssa.CallInstruction
-		for _, ci := range callsIn(fn, func(nm string, cc *ssa.CallCommon) bool { return nm == "(*strings.Builder).WriteString" }) {
-			writes = append(writes, ci)
-		}
-		// order by dominance (they all lie on the spine of the function)
-		for i := 0; i < len(writes); i++ {
-			for j := i + 1; j < len(writes); j++ {
-				if domBefore(writes[j], writes[i]) {
-					writes[i], writes[j] = writes[j], writes[i]
-				}
-			}
-		}
-		var kinds []string
-		var jsonArg ssa.Value
-		for _, w := range writes {
-			a := w.Common().Args[1]
-			k := "?"
+		tokenOK := false
+		classify := func(a ssa.Value) string {
 			if s, ok := constString(a); ok {
 				if s == "\x00" {
-					k = "NUL"
-				} else {
-					k = fmt.Sprintf("%q", s)
+					return "NUL"
 				}
-			} else if derivesFrom(a, 3, func(x ssa.Value) bool {
+				return fmt.Sprintf("%q", s)
+			}
+			switch {
+			case derivesFrom(a, 3, func(x ssa.Value) bool {
 				cl, ok := x.(*ssa.Call)
 				return ok && methodName(&cl.Call) == "Undashed"
-			}) {
-				k = "uuid"
-			} else if derivesFrom(a, 4, func(x ssa.Value) bool {
+			}):
+				return "uuid"
+			case derivesFrom(a, 4, func(x ssa.Value) bool {
 				cl, ok := x.(*ssa.Call)
 				return ok && strings.HasSuffix(calleeName(&cl.Call), "netutil.Host") && derivesFrom(cl.Call.Args[0], 3, func(y ssa.Value) bool {
 					c2, ok := y.(*ssa.Call)
 					return ok && methodName(&c2.Call) == "RemoteAddr"
 				})
-			}) {
-				k = "player-ip"
-			} else if derivesFrom(a, 4, func(x ssa.Value) bool {
+			}):
+				return "player-ip"
+			case derivesFrom(a, 4, func(x ssa.Value) bool {
 				cl, ok := x.(*ssa.Call)
 				return ok && calleeName(&cl.Call) == "encoding/json.Marshal"
-			}) {
-				k = "json"
+			}):
 				derivesFrom(a, 4, func(x ssa.Value) bool {
 					if cl, ok := x.(*ssa.Call); ok && calleeName(&cl.Call) == "encoding/json.Marshal" {
-						jsonArg = cl.Call.Args[0]
+						if spec.guard && bungeeGuardTokenIn(cl.Call.Args[0], fn) {
+							tokenOK = true
+						}
 						return true
 					}
 					return false
 				})
-			} else if derivesFrom(a, 4, func(x ssa.Value) bool {
+				return "json"
+			case derivesFrom(a, 4, func(x ssa.Value) bool {
 				cl, ok := x.(*ssa.Call)
 				return ok && methodName(&cl.Call) == "Addr" && derivesFrom(cl.Call.Value, 3, func(y ssa.Value) bool {
 					c2, ok := y.(*ssa.Call)
 					return ok && methodName(&c2.Call) == "ServerInfo"
 				})
-			}) {
-				k = "backend-addr"
+			}):
+				return "backend-addr"
 			}
-			kinds = append(kinds, k)
+			return "?"
 		}
-		got := strings.Join(kinds, " ")
 		const want = "backend-addr NUL player-ip NUL uuid NUL json"
-		at := ssa.Instruction(nil)
-		if len(writes) > 0 {
-			at = writes[0]
+		nr, fixed := 0, true
+		for _, r := range successReturns(fn) {
+			nr++
+			kinds, ok := strKinds(retVal(r, 0), classify, 3)
+			if !ok {
+				fixed = false
+			}
+			got := strings.Join(kinds, " ")
+			c.Check("forwarding-layout", spec.fn, r, got == want,
+				"the forwarding address must be "+want+" (BungeeCord's handshake split); derived: "+got)
 		}
-		c.Check("forwarding-layout", spec.fn, at, got == want,
-			"the forwarding address must be "+want+" (BungeeCord's handshake split); derived: "+got)
-		// all writes on every path + returns the builder
-		allDom := true
-		for _, r := range returnsOf(fn) {
-			if r.Block() == fn.Recover {
-				continue
-			}
-			for _, w := range writes {
-				if !domBefore(w, r) {
-					allDom = false
-				}
-			}
-			cl := callValue(retVal(r, 0))
-			if cl == nil || calleeName(&cl.Call) != "(*strings.Builder).String" {
-				allDom = false
-			}
-		}
-		c.CheckAt("forwarding-layout", spec.fn+"/unconditional", c.P.Pos(fn.Pos()), allDom && len(writes) == 7, "every part must be written on every path and the builder's content returned")
+		c.CheckAt("forwarding-layout", spec.fn+"/unconditional", c.P.Pos(fn.Pos()), fixed && nr > 0, "every part must be written on every path (one fixed sequence of parts) and the built string returned")
 		if spec.guard {
-			ok := false
-			if jsonArg != nil {
-				ok = derivesFrom(jsonArg, 6, func(x ssa.Value) bool {
-					cl, isC := x.(*ssa.Call)
-					if !isC {
-						return false
-					}
-					b, isB := cl.Call.Value.(*ssa.Builtin)
-					if !isB || b.Name() != "append" {
-						return false
-					}
-					// the appended element: {Name: "bungeeguard-token", Value: secret}
-					name, val := false, false
-					for _, o := range origins(cl.Call.Args[1], 4) {
-						_ = o
-					}
-					eachInstr(fn, func(in ssa.Instruction) {
-						st, isSt := in.(*ssa.Store)
-						if !isSt {
-							return
-						}
-						fa, isFA := st.Addr.(*ssa.FieldAddr)
-						if !isFA {
-							return
-						}
-						if !storedIntoSliceOf(fa.X, cl.Call.Args[1]) {
-							return
-						}
-						switch fieldOfAddr(fa).Name() {
-						case "Name":
-							if s, isS := constString(st.Val); isS && s == "bungeeguard-token" {
-								name = true
-							}
-						case "Value":
-							if p, isP := strip(st.Val).(*ssa.Parameter); isP && p == fn.Params[1] {
-								val = true
-							}
-						}
-					})
-					return name && val
-				})
-			}
-			c.CheckAt("bungeeguard-token", "append({bungeeguard-token, secret})→json.Marshal@"+spec.fn, c.P.Pos(fn.Pos()), ok,
+			c.CheckAt("bungeeguard-token", "append({bungeeguard-token, secret})→json.Marshal@"+spec.fn, c.P.Pos(fn.Pos()), tokenOK,
 				"the marshalled property list must contain the bungeeguard-token property carrying the configured secret")
 		}
 	}
+}
+
+// bungeeGuardTokenIn: the marshalled value derives from an append whose element is
+// {Name: "bungeeguard-token", Value: <the secret parameter of specFn>}.
+func bungeeGuardTokenIn(jsonArg ssa.Value, specFn *ssa.Function) bool {
+	return derivesFrom(jsonArg, 6, func(x ssa.Value) bool {
+		cl, isC := x.(*ssa.Call)
+		if !isC {
+			return false
+		}
+		b, isB := cl.Call.Value.(*ssa.Builtin)
+		if !isB || b.Name() != "append" || len(cl.Call.Args) < 2 {
+			return false
+		}
+		name, val := false, false
+		eachInstr(cl.Parent(), func(in ssa.Instruction) {
+			st, isSt := in.(*ssa.Store)
+			if !isSt {
+				return
+			}
+			fa, isFA := st.Addr.(*ssa.FieldAddr)
+			if !isFA {
+				return
+			}
+			if !storedIntoSliceOf(fa.X, cl.Call.Args[1]) {
+				return
+			}
+			switch fieldOfAddr(fa).Name() {
+			case "Name":
+				if s, isS := constString(st.Val); isS && s == "bungeeguard-token" {
+					name = true
+				}
+			case "Value":
+				if p, isP := strip(st.Val).(*ssa.Parameter); isP && len(specFn.Params) > 1 && p == specFn.Params[1] {
+					val = true
+				}
+			}
+		})
+		return name && val
+	})
 }
 
 // storedIntoSliceOf: addr is an element (IndexAddr) of the array that backs the slice value s
